@@ -3,6 +3,8 @@
 From Coq Require Import ZArith List Bool Sorted.
 Import ListNotations.
 From Verif Require Import Base.StableSort Base.PyValue Model.Order Model.Pivot Proofs.PivotProofs.
+(* imported before the C15_source_* theorems; required here so that coqdep sees the dependency on the generated file *)
+From Verif Require Model.PyMini Model.PrimsExec Gen.SrcExec Proofs.SrcExec Proofs.SrcExecPivot.
 Open Scope nat_scope.
 
 (* keys of the second pivot column: ascending, and every row's value is (==) one of them *)
@@ -77,17 +79,46 @@ Example C15_example :
 Proof. reflexivity. Qed.
 
 (* ---------------------------------------------------------------------------------------------------------------
-   Tie by translation (PYMINI.md): Gen/SrcExec.v's exec_pivot_fill is regenerated on every run from the SOURCE of the
-   EvalPivot branch of query_execute.execute_query (statements `pivoted = []` .. `return columns, pivoted`, selected by
-   structure).  Interpreted with the primitives of Model/PrimsExec.v it returns, for ALL rows and pivot columns, the
-   rows of [pivot]: sorted by the first pivot column (the sort key is the translated nullitemgetter), grouped, each
-   row's remaining columns written into the block of its key.  The statements that compute the key list, `other`
-   (a lambda) and the header use lambdas / a set comprehension / f-strings and are outside the translated fragment:
-   the key list enters as Model/Pivot.v's pivot_keys, `other` as an opaque callable, the header only by its length. *)
+   Tie by translation (PYMINI.md): Gen/SrcExec.v's exec_execute_query is regenerated on every run from the SOURCE of
+   the WHOLE function query_execute.execute_query (dispatch on the class of the compiled statement; the PIVOT BY
+   branch: othercols, the sorted key set, names / datatypes / Column objects of the header, then the rows), translated
+   with the rules W1-W7 of harness/vf/src_exec.py (set comprehension, sorted(key=lambda), tuple patterns in
+   comprehensions, f-strings as uninterpreted records of their parts, isinstance, raise, a lambda inlined at its
+   calls).  Interpreted with the primitives of Model/PrimsExec.v it returns, for ALL inputs, [pivot]: the header
+   entries as Column objects (hdr_pv) and the rows.  exec_pivot_fill is the second half alone (statement range). *)
 From Coq Require Import String.
-From Verif Require Import Model.PyMini Model.PrimsExec Gen.SrcExec Proofs.SrcExec Proofs.SrcExecPivot.
+Import Verif.Model.PyMini Verif.Model.PrimsExec Verif.Gen.SrcExec Verif.Proofs.SrcExec Verif.Proofs.SrcExecPivot.
 
-Theorem C15_source_pivot : forall (call_ref : nat -> list pv -> pv) (ncols c1 c2 ko : nat) (rows : list row)
+(* opaque callables: 1 nullitemgetter (closure value), 3 execute_select on the inner query (returns the un-pivoted
+   columns and rows, every row as wide as the column list), 4 the class Column *)
+Theorem C15_source_pivot : forall (call_ref : nat -> list pv -> pv),
+  (forall args, call_ref 1%nat args = partial_clo 1 args) ->
+  (forall n d, call_ref 4%nat [n; d] = column_obj n d) ->
+  forall (incols : list (pv * pv)) (c1 c2 : nat) (rows : list row) (subq : pv),
+  (c1 < List.length incols)%nat -> (c2 < List.length incols)%nat ->
+  Forall (fun r : row => List.length r = List.length incols) rows ->
+  call_ref 3%nat [subq] =
+    PTuple [PTuple (map (fun nd : pv * pv => column_obj (fst nd) (snd nd)) incols); PList (map row_pv rows)] ->
+  call_fun call_ref (prims_exec call_ref exec_nig_single exec_nig_multi 1) exec_execute_query [qobj c1 c2 subq] =
+  Ok (PTuple [PTuple (map (hdr_pv incols c1 c2) (fst (pivot (List.length incols) c1 c2 rows)));
+              PList (map row_pv (snd (pivot (List.length incols) c1 c2 rows)))]).
+Proof. exact execute_query_pivot_src. Qed.
+Print Assumptions C15_source_pivot.
+
+(* the dispatch: a compiled SELECT goes to execute_select, anything that is neither class raises RuntimeError *)
+Theorem C15_source_dispatch_select : forall (call_ref : nat -> list pv -> pv) tbl d l,
+  call_fun call_ref (prims_exec call_ref exec_nig_single exec_nig_multi 1) exec_execute_query [query_obj tbl d l] =
+  do_call call_ref (PRef 3) [query_obj tbl d l].
+Proof. exact execute_query_select_src. Qed.
+Print Assumptions C15_source_dispatch_select.
+
+Theorem C15_source_dispatch_error : forall (call_ref : nat -> list pv -> pv) (v : value),
+  call_fun call_ref (prims_exec call_ref exec_nig_single exec_nig_multi 1) exec_execute_query [PV v] = Exc RuntimeError.
+Proof. exact execute_query_other_src. Qed.
+Print Assumptions C15_source_dispatch_error.
+
+(* the second half alone (exec_pivot_fill: `pivoted = []` .. `return columns, pivoted`), keys and `other` as parameters *)
+Theorem C15_source_pivot_rows : forall (call_ref : nat -> list pv -> pv) (ncols c1 c2 ko : nat) (rows : list row)
     (cols : list pv),
   (forall args, call_ref 1%nat args = partial_clo 1 args) ->
   (forall r : row, call_ref ko [row_pv r] = PTuple (map PV (other (other_cols ncols c1 c2) r))) ->
@@ -98,15 +129,14 @@ Theorem C15_source_pivot : forall (call_ref : nat -> list pv -> pv) (ncols c1 c2
      PInt (Z.of_nat (List.length (other_cols ncols c1 c2))); PRef ko] =
   Ok (PTuple [PTuple cols; PList (map row_pv (snd (pivot ncols c1 c2 rows)))]).
 Proof. exact pivot_src. Qed.
-Print Assumptions C15_source_pivot.
+Print Assumptions C15_source_pivot_rows.
 
-(* the same for ANY key list that contains every row's second pivot column and any remaining-column list *)
 Theorem C15_source_pivot_fill : forall (call_ref : nat -> list pv -> pv),
   (forall args, call_ref 1%nat args = partial_clo 1 args) ->
   forall (ks : list value) (oc : list nat) (c2 ko : nat),
   (forall r : row, call_ref ko [row_pv r] = PTuple (map PV (other oc r))) ->
   forall (cols : list pv) (c1 : nat) (rows : list row),
-  Forall (fun r => (c1 < List.length r)%nat) rows -> Forall (row_ok ks c2) rows ->
+  Forall (fun r => (c1 < List.length r)%nat) rows -> Forall (row_ok0 ks c2) rows ->
   call_fun call_ref (prims_exec call_ref exec_nig_single exec_nig_multi 1) exec_pivot_fill
     [PList (map row_pv rows); idx_pv c1; PTuple cols; PList (map PV ks); idx_pv c2; PInt (Z.of_nat (List.length oc));
      PRef ko] =
@@ -115,18 +145,21 @@ Theorem C15_source_pivot_fill : forall (call_ref : nat -> list pv -> pv),
 Proof. exact pivot_fill_src. Qed.
 Print Assumptions C15_source_pivot_fill.
 
-(* Non-vacuity: the translated statements run by the interpreter on the rows of C15_example (keys a, b; `other` = column 2) *)
+(* Non-vacuity: the translated execute_query run by the interpreter on the un-pivoted result of C15_example
+   (columns x, y, z with datatypes 1, 2, 3; PIVOT BY 1, 2) *)
 Example C15_source_example :
   let cr : nat -> list pv -> pv := fun k args =>
     match k, args with
     | 1%nat, _ => partial_clo 1 args
-    | 5%nat, [PTuple l] => PTuple [nth 2 l PNone]
+    | 3%nat, _ => PTuple [PTuple [column_obj (PInt 120) (PInt 1); column_obj (PInt 121) (PInt 2); column_obj (PInt 122) (PInt 3)];
+                          PList (map row_pv [[VInt 2; VStr [98%Z]; VInt 20]; [VInt 1; VStr [97%Z]; VInt 10];
+                                             [VInt 1; VStr [98%Z]; VInt 11]; [VNull; VStr [97%Z]; VInt 5]])]
+    | 4%nat, [n; d] => column_obj n d
     | _, _ => PNone
     end in
-  call_fun cr (prims_exec cr exec_nig_single exec_nig_multi 1) exec_pivot_fill
-    [PList (map row_pv [[VInt 2; VStr [98%Z]; VInt 20]; [VInt 1; VStr [97%Z]; VInt 10]; [VInt 1; VStr [98%Z]; VInt 11];
-                        [VNull; VStr [97%Z]; VInt 5]]);
-     idx_pv 0; PTuple [PNone; PNone; PNone]; PList [PV (VStr [97%Z]); PV (VStr [98%Z])]; idx_pv 1; PInt 1; PRef 5]
-  = Ok (PTuple [PTuple [PNone; PNone; PNone];
+  call_fun cr (prims_exec cr exec_nig_single exec_nig_multi 1) exec_execute_query [qobj 0 1 PNone]
+  = Ok (PTuple [PTuple [column_obj (fstring_obj [PInt 120; PV (VStr [47%Z]); PInt 121]) (PInt 1);
+                        column_obj (fstring_obj [PV (VStr [97%Z])]) (PInt 3);
+                        column_obj (fstring_obj [PV (VStr [98%Z])]) (PInt 3)];
                 PList (map row_pv [[VNull; VInt 5; VNull]; [VInt 1; VInt 10; VInt 11]; [VInt 2; VNull; VInt 20]])]).
 Proof. vm_compute. reflexivity. Qed.
